@@ -297,6 +297,16 @@ theorem builtin_probes_agree :
         p.2.2.2.map fun r => (r.1.toList, r.2)) = true := by
   decide +kernel
 
+/-- **Built-in `int` filter at the interpreter's conversion limit.**  On digit runs of
+`sys.get_int_max_str_digits()` (`Gen.intMaxStrDigits`) and one more characters — with a sign, made of
+or led by zeros, followed by a literal — the live handler answers what the reference semantics
+says: up to the limit the integer; beyond it *no match* (`int()` raised `ValueError` inside the
+handler, which was a 500 before be98856).  Leading zeros count, the sign does not. -/
+theorem builtin_int_limit_probes_agree :
+    (Gen.builtinIntLimitProbes.all fun p =>
+      Builtin.builtin "int".toList [] p.1 == p.2) = true := by
+  decide +kernel
+
 /-- "not found" is answered exactly when the tree lookup finds no route -/
 theorem resolve_notFound_iff_miss (env : FilterEnv) (R : Router) (path : Str) (ms : List Str) :
     (∃ v h p, R.resolve env path ms = .notFound v h p) ↔
@@ -344,6 +354,28 @@ theorem builtin_env_probes_agree :
     (Gen.rbEnvProbes.all fun p =>
       (builtinEnv rbFc p.1.toList p.2.1).map rbShow == p.2.2) = true := by
   decide +kernel
+
+/-- **`int_filter_rejects_beyond_limit`.**  A text that starts with an optional `-` and a run of more
+than `Gen.intMaxStrDigits` (`sys.get_int_max_str_digits()`) digit characters — leading zeros
+included, whatever follows the run — is *not matched* by an `int` wildcard of the concrete
+environment: the rule does not apply to such a path (404, or the next candidate rule); the handler
+is never called with it, and no 5xx comes out of the converter.  (Before be98856 `int()`'s
+`ValueError` escaped as a 500: `seeded/C01-revert-be98856`.) -/
+theorem int_filter_rejects_beyond_limit (fc : FloatConv) (env : FilterEnv) (g : Fid) (hg : isIntFid g = true)
+    (s : Str)
+    (h : Gen.intMaxStrDigits <
+      ((if (s.head? == some '-') = true then s.drop 1 else s).takeWhile isDecDigit).length) :
+    withBuiltin fc env g s = none := by
+  simp only [withBuiltin, hg, if_true]
+  exact intFilter_none_beyond s h
+
+/-- …and every value an `int` wildcard does hand to a handler is an integer the interpreter prints
+(`str(v)` does not raise): at most `Gen.intMaxStrDigits` digits -/
+theorem int_filter_value_within_limit (fc : FloatConv) (env : FilterEnv) (g : Fid) (hg : isIntFid g = true)
+    (s : Str) (r : FilterRes) (h : withBuiltin fc env g s = some r) :
+    ∃ z, r.val = intVal z ∧ Py.intStrDigits z ≤ Gen.intMaxStrDigits := by
+  simp only [withBuiltin, hg, if_true] at h
+  exact (intFilter_spec_lim h).1
 
 /-- none of the concrete handlers answers with a `rex` selector: the hypothesis `NoSel` of the
 theorems above is met by the concrete environment itself -/
